@@ -315,6 +315,9 @@ func init() {
 				}
 				ids = append(ids, "3-3/f0/U3/est", "3e-3r/f0/U3/est", "2w-2/f80/U3/est")
 			} else {
+				// sized to complete within the 25-minute budget (≈ 1.5 M states): start states with history first, then every
+				// combination of the four behaviour flags on the sender, each against two of the four peers in turn
+				ids = append(ids, "3-3/f0/U4/est", "3e-3r/f0/U4/est", "2w-2/f80/U4/est", "3rws-3e/f0/U4/est", "2r-2/f0/U4/full", "2rw-23ws/f80/U4/lean")
 				for m := 0; m < 16; m++ {
 					f := ""
 					for i, c := range "rwse" {
@@ -322,11 +325,18 @@ func init() {
 							f += string(c)
 						}
 					}
-					for pi, peer := range []string{"3", "3rwse", "23ws", "3e"} {
-						ids = append(ids, fmt.Sprintf("3%s-%s/f%d/U4/%s", f, peer, []int{0, 80}[(m+pi)%2], []string{"lean", "full"}[(m+pi)%2]))
+					peers := []string{"3", "3rwse", "23ws", "3e"}
+					for k := 0; k < 2; k++ {
+						pi := (m + 2*k) % 4
+						if k == 1 {
+							pi = (m + 1 + 2*(m/4%2)) % 4
+						}
+						if k == 1 && pi == m%4 {
+							pi = (pi + 1) % 4
+						}
+						ids = append(ids, fmt.Sprintf("3%s-%s/f%d/U4/%s", f, peers[pi], []int{0, 80}[(m+k)%2], []string{"lean", "full"}[(m+k)%2]))
 					}
 				}
-				ids = append(ids, "2r-2/f0/U4/full", "2rw-23ws/f80/U4/lean", "23re-23/f0/U4/full", "3-3/f0/U4/est", "3e-3r/f0/U4/est", "2w-2/f80/U4/est", "3rws-3e/f0/U4/est")
 			}
 			for _, id := range ids {
 				r.explore(verifC03Sys(id, r.Seed))
